@@ -13,4 +13,5 @@ INVARIANT EmitState
 INVARIANT TypeOK
 PROPERTY ReadBack
 PROPERTY Locality
+POSTCONDITION CountReport
 CHECK_DEADLOCK FALSE
